@@ -28,10 +28,17 @@ def Omitted.noneOrAbsent : Omitted → Bool
   | .value d => d.isNone
   | .rejected => false
 
-/-- `omittable` is exactly "the parser's `required` is False" -/
+/-- Being listed is decided on the JSON name, in each of the three places a `required` list can
+stand — so it does not depend on how the name had to be rewritten. -/
+theorem Vec.listed_eq (v : Vec) : v.listed = v.inreq := by
+  obtain ⟨k, n, r, d, t, c, o, via, name, sc⟩ := v
+  cases via <;> cases r <;> cases name <;> cases sc <;> rfl
+
+/-- `omittable` is exactly "the parser's final `required` is False" -/
 theorem Vec.omittable_eq (v : Vec) : v.omittable = !v.reduce.required := by
-  obtain ⟨k, n, r, d, t, c, ⟨sn, ud, fo, sd, an, fc⟩⟩ := v
-  simp only [Vec.omittable, Vec.reduce, Vec.hasDefault]
+  have hl := Vec.listed_eq v
+  obtain ⟨k, n, r, d, t, c, ⟨sn, ud, fo, sd, an, fc⟩, via, name, sc⟩ := v
+  simp only [Vec.omittable, Vec.reduce, Vec.finalRequired, Vec.hasDefault, hl]
   cases r <;> cases fo <;> cases ud <;> cases d.given <;> rfl
 
 def RVec.admitsNull (v : RVec) : Bool := v.nullsrc.admitsNull
@@ -49,7 +56,8 @@ def d7R (v : RVec) : Bool :=
 /-- same defect in the msgspec template: `not field.required or field.data_type.is_optional or field.nullable` -/
 def d7mR (v : RVec) : Bool :=
   let f := fromReduced v
-  v.kind == .ms && f.required && (f.dataTypeIsOptional || f.nullable == some true)
+  v.kind == .ms && f.required && (f.dataTypeIsOptional || f.nullable == some true) &&
+    msFieldAsg f == none   -- with an alias the member is written `= field(name='…')` instead
 
 /-- pydantic v1: a required member whose annotation is `Optional[…]` is written without the
 `Field(...)` marker (only emitted when `nullable` is set, i.e. OpenAPI + strict-nullable);
@@ -79,7 +87,14 @@ even when the type list contains "null"; for array members nothing else marks th
 def strictOverridesTypeListR (v : RVec) : Bool :=
   let f := fromReduced v
   v.nullsrc == .typelist && v.sn && v.ty == .array &&
-    (f.hasDefault || f.required)
+    (f.hasDefault || (v.required && !v.late))
+
+/-- `nullable` is computed when the field object is built; a member that only becomes required
+afterwards (listed through an allOf sibling / on the allOf owner) and has no default keeps
+`nullable = None`, so under `--strict-nullable` OpenAPI `nullable: true` is lost for it unless the
+data type itself is optional (scalars only). -/
+def lateStrictNullableR (v : RVec) : Bool :=
+  v.nullsrc == .flag && v.sn && v.late && !v.dflt.given && v.ty != .scalar
 
 /-- TypedDict: a not-required member never falls back to `Optional[…]`; it admits None only via
 `data_type.is_optional` or `nullable` -/
@@ -96,7 +111,7 @@ def tdNoDefaultsR (v : RVec) : Bool := v.kind == .td && !v.dflt.isNone
 
 /-- msgspec: list/dict defaults are written as literals; msgspec refuses non-empty ones -/
 def msMutableLiteralD (dec : Kind → Env → Decision) (v : RVec) : Bool :=
-  v.kind == .ms && v.dflt.isNonEmptyMutable && (renderD dec v).asg == .lit v.dflt
+  v.kind == .ms && v.dflt.isNonEmptyMutable && (renderD dec v).asg.default? == some v.dflt
 
 def d7 (v : Vec) : Bool := d7R v.reduce
 def d7m (v : Vec) : Bool := d7mR v.reduce
@@ -104,6 +119,7 @@ def v1Bare (v : Vec) : Bool := v1BareR v.reduce
 def nullableFlagIgnored (v : Vec) : Bool := nullableFlagIgnoredR v.reduce
 def strictOverridesTypeList (v : Vec) : Bool := strictOverridesTypeListR v.reduce
 def tdNoFallback (v : Vec) : Bool := tdNoFallbackR v.reduce
+def lateStrictNullable (v : Vec) : Bool := lateStrictNullableR v.reduce
 def tdNoDefaults (v : Vec) : Bool := tdNoDefaultsR v.reduce
 def stripped (v : Vec) : Bool := strippedD tableDecision v.reduce
 def v1NoneDefault (v : Vec) : Bool := v1NoneDefaultD tableDecision v.reduce
@@ -144,10 +160,11 @@ def MutableExact (dec : Kind → Env → Decision) (v : RVec) : Prop :=
 def DcFactory (dec : Kind → Env → Decision) (v : RVec) : Prop :=
   v.kind = .dc → v.dflt.isMutable = true → (renderD dec v).asg = .factory v.dflt
 
-/-- (for a schema admitting null) None is accepted, except in the three nullability families -/
+/-- (for a schema admitting null) None is accepted, except in the four nullability families -/
 def NullExact (dec : Kind → Env → Decision) (v : RVec) : Prop :=
   (semD dec v).acceptsNull = false ↔
-    ((nullableFlagIgnoredR v || strictOverridesTypeListR v || tdNoFallbackR v) && !v1NoneDefaultD dec v) = true
+    ((nullableFlagIgnoredR v || strictOverridesTypeListR v || tdNoFallbackR v || lateStrictNullableR v) &&
+      !v1NoneDefaultD dec v) = true
 
 /-- the sort key of dataclass / msgspec members says "has an assignment" exactly when the template
 writes one — except, for msgspec, when the template appends a default the key does not know about
@@ -160,7 +177,7 @@ def msKeyMismatch (v : Vec) : Bool := msKeyMismatchR v.reduce
 
 def SortKeyExact (dec : Kind → Env → Decision) (v : RVec) : Prop :=
   ∀ b, sortKey v.kind (fromReduced v) = some b →
-    ((b = ((renderD dec v).asg != .none)) ↔ msKeyMismatchR v = false)
+    ((b = (renderD dec v).asg.default?.isSome) ↔ msKeyMismatchR v = false)
 
 /-- the must-supply families only exist for schemas that admit null -/
 def MustFamiliesNeedNull (v : RVec) : Prop :=
